@@ -146,3 +146,35 @@ package ast
 //@ func (*ToBoltListener).popSetFunction
 //@   modifies bl.currentStack.values, bl.err
 //@   ensures[latch] old(bl.err) != nil ==> bl.err != nil
+
+// ---------------------------------------------------------------------------
+// Typing pass (C10, C01)
+// ---------------------------------------------------------------------------
+
+// the variadic node slots are addresses of fields or locals: never nil; what they hold is never nil
+//@ func transformTypes
+//@   props C10
+//@   requires s != nil
+//@   requires forall(i, 0 <= i && i < len(nodes) ==> nodes[i] != nil && *nodes[i] != nil)
+//@   modifies *
+//@   ensures[slots-stay-usable] result == nil ==> forall(i, 0 <= i && i < len(nodes) ==> *nodes[i] != nil)
+//@   invariant 1: forall(i, 0 <= i && i < len(nodes) ==> nodes[i] != nil && *nodes[i] != nil)
+//@ func transformBools
+//@   props C10
+//@   requires s != nil
+//@   requires forall(i, 0 <= i && i < len(nodes) ==> nodes[i] != nil && *nodes[i] != nil)
+//@   modifies *
+//@   ensures[slots-stay-usable] result == nil ==> forall(i, 0 <= i && i < len(nodes) ==> *nodes[i] != nil)
+//@   invariant 1: forall(i, 0 <= i && i < len(nodes) ==> nodes[i] != nil && *nodes[i] != nil)
+//@ func (TypeTransformable).TypeTransform
+//@   requires s != nil
+//@   modifies *
+//@   ensures result1 == nil ==> result0 != nil
+//@ func (BoolTypeTransformable).TypeTransformBool
+//@   requires s != nil
+//@   modifies *
+//@   ensures result1 == nil ==> result0 != nil
+//@ func PostProcess
+//@   props C10
+//@   requires symbolTypes != nil && node != nil && *node != nil
+//@   modifies *
